@@ -56,6 +56,8 @@ PACKAGES['vfq_bad'] = {'types': [gen.stype('px', [gen.key('kx')], implements='aa
                                  gen.stype('ta', [gen.key('ka')])], 'broken': True}
 # a component that defines a type NAMED like vfq_a's implementer 'pa' but without 'implements'
 PACKAGES['vfq_a2'] = {'types': [gen.stype('pa', [gen.key('ka')])]}
+# a package whose name contains a non-ASCII letter (PEP 3131)
+PACKAGES['vfq_\u00e9'] = {'types': [gen.stype('pu', [gen.key('ku')], implements='aa')]}
 # a component that names a stock datatype by its dotted path
 PACKAGES['vfq_dt'] = {'types': [gen.stype('pd', [gen.key('kd', 'ZConfig.datatypes.integer', default='1')], implements='aa')]}
 # a package split into two files the way the shipped logger component is: the application schema imports
@@ -127,6 +129,7 @@ LOADS = {
     'ovr': ['%import vfq_a', ['<', W('t'), '/>'], '<tb zz>', '</tb>', ['<', W('u'), ' nn/>']],
     'ovr-imported': ['%import vfq_a', ['<', W('t'), ' nn>'], ['</', ['=', 't'], '>'], '<tb/>'],
     'c-import-a2': ['%import vfq_a2', '<pa/>'],
+    'nonascii-import': ['%import vfq_\u00e9', ['<', W('t'), '/>']],
     'c-import-broken': ['%import vfq_bad'],
     'broken-then-use': ['%import vfq_bad', ['<', W('t'), '/>']],
     # an %include after an %import: the fragment (and what follows it) still sees the imported types
@@ -155,7 +158,7 @@ SEQS_Q = [['plain'], ['mutual'], ['mutual-2'], ['import-then-use'], ['use-before
 # every (concrete earlier load, any later load) pair against one schema object
 SEQS_Q += [[a, b] for a in ('c-import-use', 'c-import-b', 'c-bad', 'bad-import') for b in LOADS
            if [a, b] not in SEQS_Q]
-SEQS_Q += [['c-import-a2'], ['c-import-use', 'c-import-a2'], ['c-import-a2', 'c-import-use'], ['ovr'], ['ovr-imported'], ['c-import-ab'], ['c-import-ba'], ['import-include'], ['import-include-2'],
+SEQS_Q += [['nonascii-import'], ['c-import-a2'], ['c-import-use', 'c-import-a2'], ['c-import-a2', 'c-import-use'], ['ovr'], ['ovr-imported'], ['c-import-ab'], ['c-import-ba'], ['import-include'], ['import-include-2'],
            ['broken-then-use'], ['c-import-broken', 'plain'], ['c-import-broken', 'import-then-use'],
            ['c-import-use', 'import-include'], ['alt-import-use'], ['alt-use-before'], ['alt-import-use', 'alt-use-before']]
 SEQS_Q += [[a, b] for a in ('c-import-ab', 'c-import-ba')
@@ -164,6 +167,7 @@ SEQS_Q += [[a, b] for a in ('c-import-ab', 'c-import-ba')
 # loader must not reach a later one either)
 SAME_LOADER = [[a, b] for a in ('c-import-use', 'c-import-b', 'c-import-ab')
                for b in ('plain', 'use-before', 'import-then-use', 'fixed-slot')]
+EXT_LOADER = [['c-import-use', 'plain'], ['c-import-use', 'import-then-use'], ['c-import-ab', 'use-before']]
 SAME_LOADER += [['c-import-broken', 'plain'], ['c-import-broken', 'import-then-use'], ['c-import-use', 'import-include']]
 SEQS_T = SEQS_Q + [[a, b, c] for a in ('c-import-use', 'c-bad') for b in ('c-import-b', 'c-import-use', 'nocomp')
                    for c in ('import-then-use', 'between', 'twice', 'fixed-slot', 'plain')] + [['c-import-b', 'import-then-use'], ['bad-import', 'c-import-use', 'fixed-slot'],
@@ -219,6 +223,9 @@ class C12(P.TextMixin, Harness):
             us.append({'files': files, 'seq': seq, 'check': 'names'})
             if seq in SAME_LOADER:
                 us.append({'files': files, 'seq': seq, 'check': 'outcome', 'same_loader': True})
+            if seq in EXT_LOADER:
+                # the loader class that carries command-line overrides (one harmless override: 'kz=o')
+                us.append({'files': files, 'seq': seq, 'check': 'outcome', 'same_loader': 'ext'})
         for u in us:
             # the hand-edited spelling of a load that carries overrides
             if any(n in OVERRIDES or n in INLINED for n in u['seq']):
@@ -259,7 +266,11 @@ class C12(P.TextMixin, Harness):
         names0 = [schema.gettype(a).getsubtypenames() for a in absnames]
         out = []
         loader = None
-        if unit.get('same_loader'):
+        if unit.get('same_loader') == 'ext':
+            import ZConfig.cmdline
+            loader = ZConfig.cmdline.ExtendedConfigLoader(schema)
+            loader.addOption('kz=o')
+        elif unit.get('same_loader'):
             import ZConfig.loader
             loader = ZConfig.loader.ConfigLoader(schema)
         for si, (step, (name, lines)) in enumerate(zip(unit['seq'], files)):
@@ -285,6 +296,8 @@ class C12(P.TextMixin, Harness):
         files = self.text_files(unit, inp, 'edited' if 'edited' in unit else 'files')
         out = []
         for name, lines in files[:len(unit['seq'])]:
+            if unit.get('same_loader') == 'ext':
+                lines = list(lines) + ['kz o']          # the override, written into the text
             g = G.parse(lines, 'record', want_lines=True)
             if g[0] != 'ok':
                 out.append(('reject',))
